@@ -28,3 +28,11 @@ var ghostCursorData func(f io.ReaderAt, end uint64) []byte
 //@   trusted
 //@   modifies nothing
 //@   ensures int(result) == io.Reader(c).pos
+
+// Join: a function of its arguments (string manipulation, not modelled: trusted). Used by the
+// savepoint restore (C14) to name the files inside a savepoint directory given by a URI.
+//@ func Join
+//@   property C14
+//@   trusted
+//@   pure
+//@   modifies nothing
